@@ -48,7 +48,7 @@ def rule(tier):
 def floors(tier):
     return {"evaluations": 3000 if tier == "quick" else 60000, "distinct": 3000 if tier == "quick" else 50000,
             "counters": {"contract:container_errors": 3000, "outcome:library_error": 500, "outcome:document": 300,
-                         "fault:member": 1500, "fault:truncate": 150, "fault:bitflip": 150, "fault:path": 5, "fault:plist": 8, "fault:package": 20}}
+                         "fault:member": 1500, "fault:truncate": 150, "fault:bitflip": 150, "fault:path": 5, "fault:zipfield": 1500, "fault:plist": 8, "fault:package": 20}}
 
 
 def plan(tier, seed):
@@ -61,6 +61,7 @@ def plan(tier, seed):
             specs.append({"part": "member", "source": s, "tier": tier, "seed": seed, "full": full, "slice": [i, k]})
         if not s.startswith("GENERATED"):  # saved bytes differ per run (uuid1): byte-offset faults would not replay
             specs.append({"part": "zip", "source": s, "tier": tier, "seed": seed, "n": 40 if tier == "quick" else 600})
+            specs.append({"part": "zipfield", "source": s, "tier": tier, "seed": seed, "per_entry": 1 if tier == "quick" else 6})
     if tier == "quick":
         for s in SOURCES_MORE[:6]:
             specs.append({"part": "zip", "source": s, "tier": tier, "seed": seed, "n": 12})
@@ -281,6 +282,109 @@ def zip_landmarks(data):
     return cd_off, eocd
 
 
+CD_FIELDS = {"version_needed": (6, 2), "flags": (8, 2), "method": (10, 2), "crc": (16, 4), "csize": (20, 4), "usize": (24, 4), "name_len": (28, 2),
+             "extra_len": (30, 2), "comment_len": (32, 2), "local_offset": (42, 4)}
+LOCAL_FIELDS = {"version_needed": (4, 2), "flags": (6, 2), "method": (8, 2), "crc": (14, 4), "csize": (18, 4), "usize": (22, 4), "name_len": (26, 2), "extra_len": (28, 2)}
+EOCD_FIELDS = {"disk_entries": (8, 2), "total_entries": (10, 2), "cd_size": (12, 4), "cd_offset": (16, 4), "comment_len": (20, 2)}
+
+
+def zipfield_values(field, cur):
+    if field == "method":
+        return [0, 1, 8, 9, 12, 14, 93, 95, 98, 99, 0xFFFF]
+    if field == "flags":
+        return [cur | 1, cur | 8, cur | 0x40, cur | 0x800, cur | 0x2000, 0xFFFF]
+    if field == "version_needed":
+        return [0, 46, 63, 0xFFFF]
+    if field == "crc":
+        return [cur ^ 1, 0]
+    if field in ("name_len", "extra_len", "comment_len"):
+        return [0, cur + 1, max(0, cur - 1), 0xFFFF]
+    if field in ("disk_entries", "total_entries"):
+        return [0, cur + 1, max(0, cur - 1), 0xFFFF]
+    return [0, cur + 1, max(0, cur - 1), cur * 2 + 7, 0xFFFFFFFF]
+
+
+def zipfield_faults(data, rng, per_entry):
+    """Structured zip faults: one header field of one entry (central directory record, local header or the end
+    record) overwritten with a value that field can legally or illegally hold - a compression method the reader
+    has a decompressor for but the data is not in (bzip2, lzma), the encryption flags, sizes, lengths, offsets."""
+    cd, eocd = zip_landmarks(data)
+    if cd is None:
+        return
+    entries = []
+    pos = cd
+    while pos + 46 <= len(data) and data[pos:pos + 4] == b"PK\x01\x02":
+        nl, el, cl = struct.unpack("<HHH", data[pos + 28:pos + 34])
+        lo = struct.unpack("<I", data[pos + 42:pos + 46])[0]
+        entries.append((pos, lo, data[pos + 46:pos + 46 + nl].decode("utf-8", "replace")))
+        pos += 46 + nl + el + cl
+    if not entries:
+        return
+    # which entries: the first archives, the metadata, one data file, and a random few
+    pick = {0, 1, len(entries) - 1}
+    for i, (_, _, name) in enumerate(entries):
+        if name.endswith(("Metadata.iwa", "Document.iwa", "Properties.plist", "DocumentIdentifier")) or "Tile" in name:
+            pick.add(i)
+    pick |= {rng.randrange(len(entries)) for _ in range(per_entry)}
+    for i in sorted(pick)[:12]:
+        cpos, lpos, name = entries[i]
+        for where, base, table in (("cd", cpos, CD_FIELDS), ("local", lpos, LOCAL_FIELDS)):
+            if where == "local" and data[lpos:lpos + 4] != b"PK\x03\x04":
+                continue
+            for field, (off, size) in table.items():
+                cur = int.from_bytes(data[base + off:base + off + size], "little")
+                for v in zipfield_values(field, cur):
+                    v &= (1 << (8 * size)) - 1
+                    if v == cur:
+                        continue
+                    b = bytearray(data)
+                    b[base + off:base + off + size] = v.to_bytes(size, "little")
+                    yield {"entry": i, "where": where, "field": field, "value": v, "member": name}, bytes(b)
+        # the same field changed in both places consistently (the reader cross-checks some of them)
+        for field in ("method", "flags"):
+            if data[lpos:lpos + 4] != b"PK\x03\x04":
+                continue
+            cur = int.from_bytes(data[cpos + CD_FIELDS[field][0]:cpos + CD_FIELDS[field][0] + 2], "little")
+            for v in zipfield_values(field, cur):
+                v &= 0xFFFF
+                if v == cur:
+                    continue
+                b = bytearray(data)
+                b[cpos + CD_FIELDS[field][0]:cpos + CD_FIELDS[field][0] + 2] = v.to_bytes(2, "little")
+                b[lpos + LOCAL_FIELDS[field][0]:lpos + LOCAL_FIELDS[field][0] + 2] = v.to_bytes(2, "little")
+                yield {"entry": i, "where": "both", "field": field, "value": v, "member": name}, bytes(b)
+    for field, (off, size) in EOCD_FIELDS.items():
+        cur = int.from_bytes(data[eocd + off:eocd + off + size], "little")
+        for v in zipfield_values(field, cur):
+            v &= (1 << (8 * size)) - 1
+            if v == cur:
+                continue
+            b = bytearray(data)
+            b[eocd + off:eocd + off + size] = v.to_bytes(size, "little")
+            yield {"entry": -1, "where": "eocd", "field": field, "value": v, "member": ""}, bytes(b)
+
+
+def run_zipfield(spec, rec):
+    from vf.gen import docs
+    scratch = docs.scratch_dir()
+    src = source_path(spec["source"], scratch, spec["seed"])
+    data = as_zip_bytes(src)
+    rng = random.Random(f"C17-zipfield-{spec['source']}-{spec['seed']}")
+    out = os.path.join(scratch, "zf17.numbers")
+    n = 0
+    for desc, b in zipfield_faults(data, rng, spec.get("per_entry", 2)):
+        with open(out, "wb") as f:
+            f.write(b)
+        case = {"part": "zipfield", "source": spec["source"], "seed": spec["seed"], "per_entry": spec.get("per_entry", 2), **desc}
+        classify_open(out, rec, case, "zipfield")
+        rec.hist("zipfield", desc["where"] + ":" + desc["field"])
+        rec.case((spec["source"], "zipfield", desc["entry"], desc["where"], desc["field"], desc["value"]))
+        n += 1
+    rec.sample({"source": spec["source"], "zip_header_field_faults": n})
+    if os.path.exists(out):
+        os.remove(out)
+
+
 def run_zip(spec, rec):
     from vf.gen import docs
     scratch = docs.scratch_dir()
@@ -480,7 +584,7 @@ def run_shard(spec, rec):
         for c in spec["cases"]:
             replay(c, rec)
         return
-    {"member": run_member, "zip": run_zip, "path": run_path, "package": run_package}[spec["part"]](spec, rec)
+    {"member": run_member, "zip": run_zip, "zipfield": run_zipfield, "path": run_path, "package": run_package}[spec["part"]](spec, rec)
 
 
 def replay(case, rec):
@@ -541,6 +645,16 @@ def replay(case, rec):
         with open(out, "wb") as f:
             f.write(b)
         classify_open(out, rec, case, "truncate" if part != "bitflip" else "bitflip")
+    elif part == "zipfield":
+        src = source_path(case["source"], scratch, case["seed"])
+        data = as_zip_bytes(src)
+        rng = random.Random(f"C17-zipfield-{case['source']}-{case['seed']}")
+        for desc, b in zipfield_faults(data, rng, case.get("per_entry", 2)):
+            if all(desc[k] == case[k] for k in ("entry", "where", "field", "value")):
+                with open(out, "wb") as f:
+                    f.write(b)
+                classify_open(out, rec, case, "zipfield")
+                break
     elif part == "path":
         run_path({"seed": 0, "tier": "quick"}, rec)
     elif part == "package":
